@@ -38,6 +38,10 @@ fn clock() -> &'static Clock {
 /// only for measuring elapsed time between two reads, never as a timestamp to
 /// compare against another machine's clock.
 pub fn now_ms() -> u64 {
+    #[cfg(feature = "verif-hooks")]
+    if let Some(t) = crate::verif::clock_override() {
+        return t;
+    }
     let c = clock();
     c.base_ms + c.anchor.elapsed().as_millis() as u64
 }
